@@ -12,18 +12,22 @@
    and then every X the configuration did not set still has its pre-filled value.                        *)
 EXTENDS Integers, Sequences, FiniteSets, TLC, Layers, Json, SequencesExt
 
-Scalars == {"In", "PIn", "PPIn", "PPPIn", "IfPIn", "IfIn", "IfPPIn"}
+\* Unp / PUnp: the validated value is a custom UNPACKER (Unpack takes X from the setting, Validate() demands X >= 2),
+\* as a value field and behind a pointer that may be pre-filled: it is validated whether it was there before or not
+Scalars == {"In", "PIn", "PPIn", "PPPIn", "IfPIn", "IfIn", "IfPPIn", "Unp", "PUnp"}
+IsUnp(w) == w \in {"Unp", "PUnp"}
 Lists   == {"LIn", "LPIn", "LPPIn", "LIfPIn", "LIfIn", "PLIn", "PLPIn", "AIn", "APIn", "APPIn"}
 Maps    == {"MIn", "MPIn", "MPPIn", "MIfPIn", "MIfIn"}
 Wrappers == Scalars \cup Lists \cup Maps
-CanBeNil(w) == w \in {"PIn", "PPIn", "PPPIn", "PLIn", "PLPIn"}
+CanBeNil(w) == w \in {"PIn", "PPIn", "PPPIn", "PLIn", "PLPIn", "PUnp"}
 IsIface(w) == w \in {"IfPIn", "IfIn", "IfPPIn", "LIfPIn", "LIfIn", "MIfPIn", "MIfIn"}
 Xs == {0, 3}
 Defaults(w) == (IF CanBeNil(w) THEN {[nil |-> TRUE]} ELSE {})
                \cup (IF w \in Scalars THEN {[xs |-> <<x>>] : x \in Xs} ELSE {[xs |-> <<x, y>>] : x, y \in Xs})
 \* what the configuration says about w
 Settings(w) == {"absent", "nil"}
-               \cup (IF w \in Scalars /\ ~IsIface(w) THEN {"obj-y"} ELSE {})
+               \cup (IF w \in Scalars /\ ~IsIface(w) /\ ~IsUnp(w) THEN {"obj-y"} ELSE {})
+               \cup (IF IsUnp(w) THEN {"u0", "u5"} ELSE {})
                \* a map of interface{} values: a null under a NEW key (nothing is stored for it) next to a stored setting -
                \* the pre-filled entries are still all unmentioned and all validated
                \cup (IF w \in Maps /\ IsIface(w) THEN {"null-new"} ELSE {})
@@ -32,7 +36,8 @@ Settings(w) == {"absent", "nil"}
 
 \* the X values reachable in the result
 Final(w, d, s) ==
-  IF "nil" \in DOMAIN d THEN (IF s = "obj-y" THEN <<0>>            \* allocated by the setting, X stays zero
+  IF s = "u0" THEN <<0>> ELSE IF s = "u5" THEN <<5>>       \* the unpacker takes X from the setting
+  ELSE IF "nil" \in DOMAIN d THEN (IF s = "obj-y" THEN <<0>>            \* allocated by the setting, X stays zero
                               ELSE IF s = "first" THEN <<5>>       \* a new collection of one element
                               ELSE <<>>)                           \* stays nil: nothing reachable
   ELSE IF s = "first" THEN <<5, d.xs[2]>>
